@@ -36,4 +36,14 @@ def wfb (m : PMol) : Bool :=
         | some (tn, tm) => decide (tn < 4096) && decide (tm < 4096)
         | none => false)
 
+
+/-- executable form of the hypothesis on `_stereo_cis_trans_centers` used by the stereo round-trip theorem
+    (`Proofs.C10.CentersOK`): the first terminal of every marked bond leads back to that bond -/
+def centersOKb (m : PMol) (centers : List (Nat × Nat × Nat)) : Bool :=
+  (firstSeen [] m.atoms).all fun p =>
+    !p.2.stereo.isSome ||
+      (match m.terminals.lookup p.1 with
+        | some (tn, _) => centers.lookup tn == some (p.1, p.2.m) || centers.lookup tn == some (p.2.m, p.1)
+        | none => false)
+
 end ChythonModel.Model.Pack
